@@ -8,14 +8,19 @@
 #include <unistd.h>
 #include <signal.h>
 #include <functional>
+#include <string>
+#include <string.h>
 namespace verif {
-struct IsoShared { volatile long cur; volatile long done; };
+struct IsoShared { volatile long cur; volatile long done; char note[1024]; };
+static IsoShared* g_iso = nullptr;
+inline void iso_note(const std::string& s) { if (g_iso) { strncpy(g_iso->note, s.c_str(), 1023); g_iso->note[1023] = 0; } }
+inline std::string iso_last_note() { return g_iso ? std::string(g_iso->note) : std::string(); }
 // fn(i) runs case i in the child (may print JSON lines to stdout).
 // on_death(i, status) is called in the parent for the case that killed the child.
 inline void run_isolated(long ncases, unsigned watchdog_s, const std::function<void(long)>& fn,
                          const std::function<void(long, int)>& on_death, int max_deaths = 1 << 30) {
   IsoShared* sh = (IsoShared*)mmap(nullptr, sizeof(IsoShared), PROT_READ | PROT_WRITE, MAP_SHARED | MAP_ANONYMOUS, -1, 0);
-  long start = 0;
+  long start = 0; g_iso = sh; sh->note[0] = 0;
   while (start < ncases) {
     sh->cur = start; sh->done = 0;
     fflush(stdout);
@@ -31,7 +36,7 @@ inline void run_isolated(long ncases, unsigned watchdog_s, const std::function<v
     if (--max_deaths <= 0) break;   // stop restarting: enough failing cases reported for this batch
     start = sh->cur + 1;
   }
-  munmap(sh, sizeof(IsoShared));
+  g_iso = nullptr; munmap(sh, sizeof(IsoShared));
 }
 }
 #endif
